@@ -138,16 +138,25 @@ def mk(L):
                     for task in g:
                         if first and not task.is_computed():
                             first = False
-                            try:
-                                next(g)
-                                err[0] = "advancing before the previous task was computed did not raise"
-                            except RuntimeError:
-                                pass
+                            for attempt in (1, 2, 3):
+                                # every premature attempt is refused, not only the first one
+                                try:
+                                    next(g)
+                                    err[0] = ("advancing before the previous task was computed did not raise "
+                                              "(attempt %d)" % attempt)
+                                    break
+                                except RuntimeError:
+                                    pass
                         v = yield task
                         if v is END_OF_GENERATOR:
                             continue
                         out.append(v)
-                consume()
+                try:
+                    consume()
+                except Exception as e:
+                    prog.reraise_control(e)
+                    return rec.fail("%s: documented manual iteration (with refused premature advances) raised %r; %s"
+                                    % (desc, e, err[0]))
                 if err[0]:
                     return rec.fail("%s: %s" % (desc, err[0]))
                 if out != exp:
@@ -164,13 +173,14 @@ def mk(L):
                     @A()
                     def intruder():
                         # runs after `first` has started (it is yielded after it) and while it waits for a flush
-                        try:
-                            next(g2)
-                            seen.append("advanced")
-                        except RuntimeError:
-                            seen.append("RuntimeError")
-                        except StopIteration:
-                            seen.append("StopIteration")
+                        for _attempt in (1, 2):
+                            try:
+                                next(g2)
+                                seen.append("advanced")
+                            except RuntimeError:
+                                seen.append("RuntimeError")
+                            except StopIteration:
+                                seen.append("StopIteration")
                         return None
                         yield
 
@@ -181,9 +191,9 @@ def mk(L):
                     if first.is_computed() and seen and seen[0] == "advanced":
                         # legal only if `first` was already computed when the intruder ran
                         pass
-                    if seen and seen[0] != "RuntimeError" and codes and codes[0] in (0, 3):
+                    if seen and any(x != "RuntimeError" for x in seen) and codes and codes[0] in (0, 3):
                         return rec.fail("%s: advancing the generator while the previously returned task was started "
-                                        "but still blocked on a batch did not raise RuntimeError (%s)" % (desc, seen[0]))
+                                        "but still blocked on a batch did not raise RuntimeError (attempts: %s)" % (desc, seen))
                 # exhausted generator keeps raising StopIteration
                 for _ in range(2):
                     try:
